@@ -12,7 +12,7 @@ RULE = ('grid N 0..12 x bs 1..2N+3 x num_epochs {None,1,2,3} x num_steps {None,0
         'skip_shuffle, seeds from VERIF_SEED, plus random larger (N, bs); every 9th grid case draws from a dataset obtained by slicing a larger parent; four call forms (hparams object, keywords, view class directly, hparams '
         'object overridden by keywords incl. overrides to None); every view iterated twice + a fresh view + two interleaved '
         'live iterators (same view; two different clients\' views) + a pass in pieces + other views of the same dataset in between + kept results; '
-        'ints as python / NumPy scalar / 0-d array; seeds incl. 0 and 2^32-1; num_epochs incl. 0; 7 feature dtypes; infinite streams observed on a 7-batch prefix; '
+        'ints as python / NumPy scalar / 0-d array; counts up to 2^40 observed on a prefix; kwargs equal to the documented defaults omitted in half of the cases; global numpy RNG perturbed between passes; NaN / inf / -0.0 feature column; seeds incl. 0 and 2^32-1; num_epochs incl. 0; 7 feature dtypes; infinite streams observed on a 7-batch prefix; '
         'non-trivial = N >= 1 and at least one batch drawn; distinct = distinct case JSON')
 TRUSTED = ['numpy RandomState.shuffle returns a permutation of its argument and is a function of (seed, call history) '
            '(asserted on every recovered window)']
@@ -21,6 +21,7 @@ ASSUMPTIONS = ['the k-th rng.shuffle result is recorded through a RandomState su
                'C04_iterator_translated: rng.shuffle keeps the length of its argument (in-place shuffle)']
 CASE_TIMEOUT = 20   # generous: the machine is shared; a real hang (N = 0 without the early return) costs 3 x 20 s
 PREFIX = 7
+HUGE = 2000     # documented counts above this (num_steps / num_epochs ~ 1e12) are observed on a PREFIX-batch prefix
 
 
 def generate(tier, rng):
@@ -42,6 +43,10 @@ def generate(tier, rng):
           if tier != 'quick':
             yield {'n': n, 'bs': bs, 'epochs': e, 'steps': s, 'drop': not bool(i % 2), 'skip': i % 7 == 0,
                    'seed': _seed(rng, i + 3), 'kw': i % 3 == 1, 'form': [2, 3, 1, 0][i % 4], 'deliv': i // 4 + 1}
+  for j in range(24):     # magnitude: astronomically large counts, batch sizes far above N
+    big = rng.choice([10 ** 6, 10 ** 12, (1 << 31) - 1, 1 << 40])
+    yield {'n': 1 + j % 5, 'bs': 1 + j % 3, 'epochs': [big, None, big, 2][j % 4], 'steps': [None, big, big + 1, big][j % 4],
+           'drop': bool(j % 2), 'skip': j % 6 == 0, 'seed': _seed(rng, j), 'kw': False, 'form': j % 4, 'deliv': j}
   for _ in range(nrand):
     n = rng.choice([rng.randrange(1, 40), rng.randrange(10, 200)])
     bs = rng.choice([1, 2, 3, rng.randrange(1, 2 * n + 2), n, n + 1, 2 * n])
@@ -69,13 +74,22 @@ def _columns(n):
           's3': np.array([b'%d' % (i % 1000) for i in range(n)], dtype='S3'),
           'obj': np.array(['o%d' % i for i in range(n)], dtype=object),
           'flag': np.arange(n) % 2 == 0,
-          'big': (np.arange(n, dtype=np.int64) + _BIG).astype(np.int32)}
+          'big': (np.arange(n, dtype=np.int64) + _BIG).astype(np.int32),
+          'nanf': _nanf(np.arange(n))}
+
+
+def _nanf(i):
+  """float32 with non-finite values on real rows: i%5 == 0 NaN, 1 +inf, 2 -inf, 3 -0.0, 4 i+0.5."""
+  i = np.asarray(i, dtype=np.int64)
+  v = (i + 0.5).astype(np.float32)
+  v[i % 5 == 0], v[i % 5 == 1], v[i % 5 == 2], v[i % 5 == 3] = np.nan, np.inf, -np.inf, -0.0
+  return v
 
 
 def _feat_ok(b):
   """Every column of a batch follows its row id x (gather v[indices] keeps dtype and trailing shape)."""
   x = np.asarray(b['x'])
-  if x.dtype != np.int32 or set(b) != {'x', 'v', 'img', 's3', 'obj', 'flag', 'big', 'y'}:
+  if x.dtype != np.int32 or set(b) != {'x', 'v', 'img', 's3', 'obj', 'flag', 'big', 'nanf', 'y'}:
     return False
   xi, k = x.astype(np.int64), len(x)
   exp = {'y': x + 1, 'v': x.astype(np.float32) * 0.5,
@@ -86,6 +100,9 @@ def _feat_ok(b):
     a = np.asarray(b[name])
     if a.dtype != w.dtype or a.shape != w.shape or not np.array_equal(a, w):
       return False
+  nf = np.asarray(b['nanf'])
+  if nf.dtype != np.float32 or nf.shape != (k,) or nf.tobytes() != _nanf(xi).tobytes():   # bitwise: NaN / inf / -0.0 kept
+    return False
   o = b['obj']
   return o.dtype == object and o.shape == (k,) and all(o[j] == 'o%d' % int(xi[j]) for j in range(k))
 
@@ -99,7 +116,8 @@ def _ids(case):
   """Row ids (column x) of the dataset under test, by position; computed on a python range."""
   if case.get('pslice'):
     p, a, b, c = case['pslice']
-    return list(range(p))[slice(a, b, c)]
+    r = range(p)[slice(a, b, c)]
+    return list(r[::-1]) if case.get('deliv', 0) % 2 else list(r)      # odd deliv: a view of a view, d[a:b:c][::-1]
   return list(range(case['n']))
 
 
@@ -120,9 +138,15 @@ def _view(case, info=None):
   if case.get('pslice'):
     _, a, b, c = case['pslice']
     ds = ds[slice(a, b, c)]
+    if case.get('deliv', 0) % 2:
+      ds = ds[::-1]
   f = case.get('deliv', 0)
   kw = dict(batch_size=_scalar(case['bs'], f), num_epochs=_scalar(case['epochs'], f + 1), num_steps=_scalar(case['steps'], f + 2),
             drop_remainder=case['drop'], seed=_scalar(case['seed'], f // 3), skip_shuffle=case['skip'])
+  if case.get('deliv', 0) % 2 and _form(case) != 2:
+    # a value equal to the documented default is left out, so the default itself is exercised
+    dflt = dict(num_epochs=1, num_steps=None, drop_remainder=False, skip_shuffle=False)
+    kw = {k: v for k, v in kw.items() if not (k in dflt and (v is None) == (dflt[k] is None) and (v is None or v == dflt[k]))}
   hps = []
 
   def hp(x):
@@ -216,8 +240,9 @@ class _Recorder:
 
 def _take(view, case):
   it = iter(view)
-  if case['epochs'] is None and case['steps'] is None:
-    it = itertools.islice(it, PREFIX)
+  exp = _expected_count(case)
+  if exp is None or exp > HUGE:
+    it = itertools.islice(it, PREFIX)   # unbounded, or astronomically long: observed on a prefix
   else:
     it = itertools.islice(it, 5000)   # finite by the documented count; the cap only guards the harness
   out, ok = [], True
@@ -249,6 +274,13 @@ def _interleaved(view, case, want):
 K = 12     # batches looked at by the secondary passes
 
 
+def _eqb(a, b):
+  a, b = np.asarray(a), np.asarray(b)
+  if a.dtype != b.dtype or a.shape != b.shape:
+    return False
+  return bool(np.array_equal(a, b)) if a.dtype == object else np.ascontiguousarray(a).tobytes() == np.ascontiguousarray(b).tobytes()
+
+
 def _first(view, case, k=K):
   pos = {rid: j for j, rid in enumerate(_ids(case))}
   return [[pos.get(int(v), 10 ** 6) for v in np.asarray(b['x']).tolist()] for b in itertools.islice(iter(view), k)]
@@ -271,8 +303,11 @@ def run(case):
   ids = {k: id(v) for k, v in ex.items()}
   raw = list(itertools.islice(iter(view), 3))                      # kept by the caller, not copied
   raw_snap = [{k: np.array(v, copy=True) for k, v in b.items()} for b in raw]
+  np.random.seed(len(b1) + 17)         # the global numpy stream must be irrelevant: perturb it between passes
   b2, ok2 = _take(view, case)          # same view, same seed: repeated iteration must be identical
+  np.random.rand(3)
   b3, ok3 = _take(_view(case), case)   # a fresh view built and iterated with the unpatched numpy
+  np.random.shuffle(np.arange(5))
   inter = _interleaved(view, case, b1) and _interleaved(_view(case), case, b1)
   want = b1[:K]
   kk = len(want)          # secondary passes look at the first kk batches (the full passes b2 / b3 see all)
@@ -308,12 +343,12 @@ def run(case):
       hidden &= _first(ds.shuffle_repeat_batch(h), case, kk) == want
   hidden &= _first(view, case, kk) == want
   # -- caller-owned data
-  mutated = any(not (np.array_equal(ex[k], v) and ex[k].dtype == v.dtype) for k, v in snap.items())
+  mutated = any(not (_eqb(ex[k], v)) for k, v in snap.items())
   container = set(ex) == set(snap) and all(id(ex[k]) == ids[k] for k in ex) and all(a == b for a, b in info['hps'])
   if not case.get('pslice'):
     container &= ds.raw_examples is ex
   kept = len(raw) == len(raw_snap) and all(
-      set(a) == set(b) and all(np.array_equal(np.asarray(a[k]), b[k]) for k in a) for a, b in zip(raw, raw_snap))
+      set(a) == set(b) and all(_eqb(a[k], b[k]) for k in a) for a, b in zip(raw, raw_snap))
   return {'batches': b1, 'again': b1 == b2 == b3, 'features_ok': bool(ok1 and ok2 and ok3), 'shuffles': rec.shuffles,
           'interleaved': bool(inter), 'interleaved_views': bool(inter_views), 'pieces': bool(pieces),
           'hidden': bool(hidden), 'mutated': bool(mutated), 'container': bool(container), 'kept': bool(kept)}
@@ -350,8 +385,10 @@ def oracle(case, obs):
     return out
   if any(len(b) != bs for b in batches):
     out.append(('batch-size', 'a shuffled batch does not have exactly batch_size rows'))
-  if exp is not None and len(batches) != max(exp, 0):
+  if exp is not None and exp <= HUGE and len(batches) != max(exp, 0):
     out.append(('num-batches', f'{len(batches)} batches, documented count is {exp}'))
+  if exp is not None and exp > HUGE and len(batches) != PREFIX:
+    out.append(('num-batches', f'stream ended after {len(batches)} batches, documented count is {exp}'))
   if exp is None and len(batches) != PREFIX:
     out.append(('infinite-stream-ended', 'stream with num_epochs=num_steps=None ended'))
   stream, wins = _windows(case, obs)
@@ -409,8 +446,9 @@ def oracle(case, obs):
 def encode(case, obs):
   n = case['n']
   stream, wins = _windows(case, obs)
-  if n and (len(stream) > 400 or n > 60):
-    return None   # keep literals small; large cases are judged by the oracle only
+  exp = _expected_count(case)
+  if (n and (len(stream) > 400 or n > 60)) or (exp is not None and exp > HUGE):
+    return None   # keep literals / step counts small; such cases are judged by the oracle only
   # the oracle handed to the model is the recorded sequence of rng.shuffle results
   windows = fw.clist([fw.natlist(w) for w in obs['shuffles']])
   obs_t = fw.clist([fw.natlist(b) for b in obs['batches']])
@@ -427,6 +465,10 @@ def describe(case, obs):
   return {'N_vs_bs': 'empty' if n == 0 else 'lt' if n < bs else 'eq' if n == bs else 'multiple' if n % bs == 0 else 'gt',
           'epochs': case['epochs'], 'steps': case['steps'], 'skip': case['skip'], 'drop': case['drop'],
           'call_form': ['hparams', 'kwargs', 'override', 'view-class'][_form(case)],
+          'theorem_hypotheses': ('N = 0 (outside: judged by empty-dataset-batches)' if n == 0 else
+                                 'oracle not a permutation' if any(sorted(w) != list(range(n)) for w in obs['shuffles']) else
+                                 'hold (N >= 1, bs >= 1, every recorded shuffle a permutation)'),
+          'count_magnitude': 'huge' if (_expected_count(case) or 0) > HUGE else 'small',
           'scalars': ['int', 'np.int64', '0-d array'][case.get('deliv', 0) % 3],
           'seed': 'zero' if case['seed'] == 0 else 'max' if case['seed'] == (1 << 32) - 1 else 'other', 'sliced': bool(case.get('pslice')),
           'windows': min(len(obs['batches']) * bs // max(n, 1), 5)}
